@@ -487,6 +487,14 @@ func (ex *Exec) lookupFuncSpec(fn *types.Func) (*FuncSpec, *Unit) {
 func (ex *Exec) applyFunc(st *State, fn *types.Func, args []*Val, e *ast.CallExpr, pos token.Pos) []*Val {
 	key := calleeKey(fn)
 	sig := fn.Type().(*types.Signature)
+	// generic callee: result types come from the instantiated signature
+	ex.instSig = nil
+	if e != nil && sig.TypeParams().Len() > 0 {
+		if is, ok := ex.typeOf(e.Fun).(*types.Signature); ok && is.Results().Len() == sig.Results().Len() {
+			ex.instSig = is
+		}
+	}
+	defer func() { ex.instSig = nil }()
 	// receiver nil-ness
 	if sig.Recv() != nil && len(args) > 0 && args[0].Term != nil && args[0].Term.S == SInt && isRefLike(args[0].T) {
 		_, isIface := sig.Recv().Type().Underlying().(*types.Interface)
@@ -714,6 +722,12 @@ func (ex *Exec) applyContract(st *State, fn *types.Func, fs *FuncSpec, u *Unit, 
 	post.heaps = st.heaps
 	post.old = cs.old
 	// results
+	resT := func(i int) types.Type {
+		if ex.instSig != nil {
+			return ex.instSig.Results().At(i).Type()
+		}
+		return sig.Results().At(i).Type()
+	}
 	var results []*Val
 	var pureRes []*Val
 	if fs.Pure && sig.Results().Len() >= 1 {
@@ -728,10 +742,10 @@ func (ex *Exec) applyContract(st *State, fn *types.Func, fs *FuncSpec, u *Unit, 
 		if pureRes != nil {
 			r = pureRes[i]
 			ex.wf(st, r)
-		} else if i < len(fs.Results) && fs.Allocates[fs.Results[i]] && isRefLike(sig.Results().At(i).Type()) {
-			r = &Val{T: sig.Results().At(i).Type(), Term: ex.newRef(st)}
+		} else if i < len(fs.Results) && fs.Allocates[fs.Results[i]] && isRefLike(resT(i)) {
+			r = &Val{T: resT(i), Term: ex.newRef(st)}
 		} else {
-			r = ex.freshVal(st, name, sig.Results().At(i).Type())
+			r = ex.freshVal(st, name, resT(i))
 		}
 		results = append(results, r)
 		if i < len(fs.Results) {
